@@ -16,6 +16,15 @@ CLAIMED = {
             'right level: the property is a pure function of a small input and an executable validity predicate exists.',
             'cells encode (row, column) so any loss/duplication/misalignment is visible; columns of an input batch have '
             'equal length (documented precondition).', '§3 C19'),
+    'C09': ('exploration',
+            'exhaustive small-scope enumeration + Hypothesis generation; partition validity predicate and list differential',
+            'All (n, k) up to n=12/24 and all two-level (k1, k2) <= 6 with every offset are enumerated for SequenceDataSource '
+            '(single, multi-sequence, ndarray) and ShardedIterable; every composition of range(n<=5/8) into <=5 possibly-empty '
+            'sub-sequences is checked at every index and every (start, stop) slice against a Python list; Hypothesis extends to '
+            'n=500, depth 4, large read-ahead. The property is arithmetic over small integers, so small-scope exhaustion plus '
+            'random larger cases is the appropriate level.',
+            'reference = Python list semantics for index/slice/iterate/len; offsets in 0..len(shard) as produced by SequenceIterator.state.',
+            '§3 C09'),
 }
 
 PENDING_REASON = 'check not built yet in this session (work in progress; see DESIGN.md §9 build order) - not claimed until its check exists'
